@@ -312,6 +312,9 @@ func runProtocol(kc *kernelCtx, blocks []*Block, only string, want map[string]bo
 		if on("C14") {
 			pc.p9BlockingWaits(s)
 		}
+		if on("C07") || on("C05") {
+			pc.p10LockOrder(s)
+		}
 		if on("C02") || on("C13") {
 			pc.p4Mode(s)
 		}
